@@ -21,10 +21,11 @@ VM level (any program, any state; facts about `step`):
   address slot `off + i ≥ off`: nothing of the caller below the arguments is addressable through
   local indices.
 * `return_restores_caller` — `Return` pops the frame, continues at the caller's return address,
-  truncates the value stack to the frame's `stackOffset` and pushes the return value: all slots
-  below `stackOffset` are untouched by it.
-* `call_return_roundtrip` — when the callee returns from the frame the call created, the caller
-  finds `count - a + 1` values: its own slots below the arguments, and the result.
+  truncates the value stack to the frame's `stackOffset` (to `min stackOffset height`: it never
+  raises the height) and pushes the return value: all slots below are untouched by it.
+* `call_return_roundtrip`, `call_return_roundtrip_height` — when the callee returns from the frame
+  the call created, the caller finds `min (count - a) height + 1` values (`count - a + 1` when the
+  callee did not drop values of its callers): its own slots below the arguments, and the result.
 * `exec_static_call` — the same as two iterations of the dispatch loop.
 
 Compiled programs:
@@ -222,19 +223,24 @@ theorem callee_sees_arguments (p : Prog) (src : Nat) (s s2 : VmState)
 
 /-- **`return_restores_caller`**: `Return` in a frame `callee` above a frame `caller` continues at
     the caller's return address with the callee's frame popped; the value stack is cut at the
-    callee's `stackOffset` and the return value (the top of the stack) is pushed there. No slot
-    below `stackOffset` is written. (Open upvalues at or above `stackOffset` are closed: heap and
+    callee's `stackOffset` — at `c = min stackOffset height`: the repaired `clear_until` only
+    truncates, a frame that starts above the height (a call with too few values left) leaves the
+    height alone — and the return value (the top of the stack) is pushed there. No slot
+    below `c` is written. (Open upvalues at or above `stackOffset` are closed: heap and
     `openUpvalues` change as `closeState` says.) -/
 theorem return_restores_caller (p : Prog) (re : Reenter) (src : Nat)
     (hop : p.bytecode.getD src 0 = op.ret) (s : VmState) {fs : List Frame} {caller callee : Frame}
-    (hfs : s.frames = fs ++ [caller, callee]) (hroom : callee.stackOffset + 1 < s.stack.data.length) :
+    (hfs : s.frames = fs ++ [caller, callee])
+    (hroom : min callee.stackOffset s.stack.count + 1 < s.stack.data.length) :
     ∃ s', (step p re src).go s = (.ok { ip := caller.dst }, s') ∧
       s'.frames = fs ++ [caller] ∧
-      s'.stack = { count := callee.stackOffset + 1,
-                   data := s.stack.data.set callee.stackOffset s.stack.last } ∧
+      s'.stack = { count := min callee.stackOffset s.stack.count + 1,
+                   data := s.stack.data.set (min callee.stackOffset s.stack.count) s.stack.last } ∧
       s'.stack.last = s.stack.last ∧
-      (∀ j, j < callee.stackOffset → s'.stack.data.getD j .nil = s.stack.data.getD j .nil) ∧
+      (∀ j, j < min callee.stackOffset s.stack.count →
+        s'.stack.data.getD j .nil = s.stack.data.getD j .nil) ∧
       s'.globals = s.globals ∧ s'.frameCap = s.frameCap := by
+  generalize hc : min callee.stackOffset s.stack.count = c at hroom ⊢
   rw [Upv.step_ret p re src hop, go_ret]
   have hl : s.frames.getLast? = some callee := by rw [hfs]; simp
   have hd : s.frames.dropLast = fs ++ [caller] := by
@@ -244,15 +250,15 @@ theorem return_restores_caller (p : Prog) (re : Reenter) (src : Nat)
   dsimp only
   rw [hl2]
   dsimp only
-  rw [if_pos hroom]
+  rw [hc, if_pos hroom]
   refine ⟨_, rfl, hd, rfl, ?_, fun j hj => ?_, rfl, rfl⟩
-  · show VStack.last { count := callee.stackOffset + 1, data := _ } = _
+  · show VStack.last { count := c + 1, data := _ } = _
     unfold VStack.last
     dsimp only
     rw [if_pos (Nat.succ_pos _), Nat.add_sub_cancel, List.getD_eq_getElem?_getD,
       List.getElem?_set_self (by omega)]
     rfl
-  · show (s.stack.data.set callee.stackOffset s.stack.last).getD j .nil = _
+  · show (s.stack.data.set c s.stack.last).getD j .nil = _
     rw [List.getD_eq_getElem?_getD, List.getD_eq_getElem?_getD, List.getElem?_set_ne (by omega)]
 
 /-- `Return` without a caller frame is `BadReturn` -/
@@ -270,17 +276,18 @@ theorem return_without_caller (p : Prog) (re : Reenter) (src : Nat)
 /-- **round trip**: `t` is any later state in which the call stack is again the one the static call
     at `src` left (the callee is about to return). `Return` then gives the caller back its frame
     (with the return address `src + 10`, the instruction behind the call), and a value stack of
-    height `count - a + 1`: the `a` arguments have been replaced by the result; the caller's slots
-    below the arguments hold whatever `t` holds there (`Return` does not touch them). -/
+    height `min (count - a) height(t) + 1` — `count - a + 1` when the callee has not dropped values
+    of its callers (`call_return_roundtrip_height`): the `a` arguments have been replaced by the
+    result; the caller's slots below hold whatever `t` holds there (`Return` does not touch them). -/
 theorem call_return_roundtrip (p : Prog) (re : Reenter) (src r : Nat) (hop : p.bytecode.getD r 0 = op.ret)
     (s t : VmState) {fr : Frame} (hlast : s.frames.getLast? = some fr)
     (ht : t.frames = s.frames.dropLast ++ [callerFrame s src] ++ [calleeFrame p src s.stack.count])
-    (hroom : s.stack.count - (fpArity p src).toNat + 1 < t.stack.data.length) :
+    (hroom : min (s.stack.count - (fpArity p src).toNat) t.stack.count + 1 < t.stack.data.length) :
     ∃ t', (step p re r).go t = (.ok { ip := src + 10 }, t') ∧
       t'.frames = s.frames.dropLast ++ [{ fr with dst := src + 10 }] ∧
-      t'.stack.count = s.stack.count - (fpArity p src).toNat + 1 ∧
+      t'.stack.count = min (s.stack.count - (fpArity p src).toNat) t.stack.count + 1 ∧
       t'.stack.last = t.stack.last ∧
-      ∀ j, j < s.stack.count - (fpArity p src).toNat →
+      ∀ j, j < min (s.stack.count - (fpArity p src).toNat) t.stack.count →
         t'.stack.data.getD j .nil = t.stack.data.getD j .nil := by
   have ht' : t.frames = s.frames.dropLast ++ [callerFrame s src, calleeFrame p src s.stack.count] := by
     rw [ht]; simp
@@ -288,6 +295,26 @@ theorem call_return_roundtrip (p : Prog) (re : Reenter) (src r : Nat) (hop : p.b
   refine ⟨t', h1, ?_, ?_, h4, h5⟩
   · rw [h2, callerFrame_eq src hlast]
   · rw [h3]; rfl
+
+/-- the round trip as it was stated before the repair of `clear_until` (which could *raise* the
+    height to the frame's offset): when the callee is at or above its own frame's offset at the
+    `Return`, the height afterwards is `count - a + 1` -/
+theorem call_return_roundtrip_height (p : Prog) (re : Reenter) (src r : Nat) (hop : p.bytecode.getD r 0 = op.ret)
+    (s t : VmState) {fr : Frame} (hlast : s.frames.getLast? = some fr)
+    (ht : t.frames = s.frames.dropLast ++ [callerFrame s src] ++ [calleeFrame p src s.stack.count])
+    (hle : s.stack.count - (fpArity p src).toNat ≤ t.stack.count)
+    (hroom : s.stack.count - (fpArity p src).toNat + 1 < t.stack.data.length) :
+    ∃ t', (step p re r).go t = (.ok { ip := src + 10 }, t') ∧
+      t'.frames = s.frames.dropLast ++ [{ fr with dst := src + 10 }] ∧
+      t'.stack.count = s.stack.count - (fpArity p src).toNat + 1 ∧
+      t'.stack.last = t.stack.last ∧
+      ∀ j, j < s.stack.count - (fpArity p src).toNat →
+        t'.stack.data.getD j .nil = t.stack.data.getD j .nil := by
+  have hm : min (s.stack.count - (fpArity p src).toNat) t.stack.count
+      = s.stack.count - (fpArity p src).toNat := Nat.min_eq_left hle
+  have := call_return_roundtrip p re src r hop s t hlast ht (by rw [hm]; exact hroom)
+  rw [hm] at this
+  exact this
 
 /-! ## 4. the dispatch loop -/
 
